@@ -50,7 +50,8 @@ class SocketTransport(CPXTransport):
         self._socket = None
 
     def writePacket(self, packet):
-        data = bytearray(struct.pack('H', packet.length+2))
+        # the prefix describes the bytes that follow; packet.length is not refreshed when data is assigned
+        data = bytearray(struct.pack('H', len(packet.data)+2))
         data += packet.wireData
         self._socket.send(data)
 
